@@ -18,7 +18,8 @@ CONSTANTS Cfgs,          \* set of configurations [name, trace, lock, icpt, doma
           UrlProbes,     \* sequence of URL calls made after the request probes (C10)
           RoundTrip,     \* build the URL of every dispatched route from its captured parameters
           THProbes,      \* requests handed to the bundled Trace helper (C18)
-          Link           \* C08: record the derived-method answers next to every served route
+          Link,          \* C08: record the derived-method answers next to every served route
+          Dump           \* record the shape of the real tree (structural refinement drift report)
 
 VARIABLES rt, prevRt, last, hist, nbase
 vars == <<rt, prevRt, last, hist, nbase>>
@@ -166,5 +167,5 @@ C03_Frame ==
 CaseOf == CaseExtra @@ [fam |-> "router", cfg |-> rt.cfg @@ [lock |-> FALSE], ops |-> hist, battery |-> Battery,
                         skey |-> ToString([p \in Live(rt) |-> MethodsOf(rt, p)])]
 Emit == (Len(hist) > nbase /\ (EmitAll \/ Len(hist) - nbase = Depth)) => PrintT("CASE " \o ToJson(CaseOf))
-PoolLine == PrintT("POOL " \o ToJson([pool |-> [probes |-> Probes, methods |-> ProbeMethods, urls |-> UrlProbes, rt |-> RoundTrip, th |-> THProbes, link |-> Link]]))
+PoolLine == PrintT("POOL " \o ToJson([pool |-> [probes |-> Probes, methods |-> ProbeMethods, urls |-> UrlProbes, rt |-> RoundTrip, th |-> THProbes, link |-> Link, dump |-> Dump]]))
 =============================================================================
